@@ -408,6 +408,15 @@ def _weave_sub(sub, e, fnid, src, sig_end, body_close, lps, edits, vacuity, spli
         edits.append(Edit(j, ' }', 8))
 
 
+def _entry_props(e):
+    """every property id a contract entry mentions (entry level and label level)"""
+    ps = set(e.get('props') or [])
+    for (line, label, where) in list(e.get('spec', [])) + [x for sub in e.get('subs', []) for x in sub['lines']]:
+        if label and label[1]:
+            ps.update(label[1])
+    return sorted(ps)
+
+
 def weave(src, vspecs, vacuity=False, split=None, isolate=()):
     """vspecs: [(filename, text)].  Returns (woven text, info) where info has:
        line_meta: {woven line -> meta}, fns: [{id, props, start_line, end_line, contract:bool}], obligations"""
@@ -418,6 +427,7 @@ def weave(src, vspecs, vacuity=False, split=None, isolate=()):
     fn_entries = []
     normalised = []
     lost_hints = []
+    lost_entries = []
     isolated = []
     splits = {}      # fn id -> [case name, ...]   (path-split verification, see _weave_sub '@split')
     for e in entries:
@@ -448,8 +458,15 @@ def weave(src, vspecs, vacuity=False, split=None, isolate=()):
                 except AnchorLost:
                     pos = c
             if found is None:
-                raise AnchorLost('fn not found: %s' % fnid)
-        kw, sig_end, body_close = find_fn(src, e['name'], bs, be)
+                # the function the contract was written for no longer exists (renamed, inlined, removed): its entry is
+                # skipped and recorded; the checker leaves every property the entry serves undecided
+                lost_entries.append({'fn': fnid, 'props': _entry_props(e)})
+                continue
+        try:
+            kw, sig_end, body_close = find_fn(src, e['name'], bs, be)
+        except AnchorLost:
+            lost_entries.append({'fn': fnid, 'props': _entry_props(e)})
+            continue
         sig = src[kw:sig_end]
         if e.get('attr'):
             edits.append(Edit(kw, e['attr'] + ' ', -1))
@@ -548,7 +565,7 @@ def weave(src, vspecs, vacuity=False, split=None, isolate=()):
     for fe in fn_entries:
         fe['start_line'] = line_of(map_pos(fe['kw']))
         fe['end_line'] = line_of(map_pos(fe['close']))
-    info = {'line_meta': line_meta, 'fn_entries': fn_entries, 'map_pos': map_pos, 'line_of': line_of, 'normalised_receivers': normalised, 'lost_hints': lost_hints, 'splits': splits, 'isolated': isolated}
+    info = {'line_meta': line_meta, 'fn_entries': fn_entries, 'map_pos': map_pos, 'line_of': line_of, 'normalised_receivers': normalised, 'lost_hints': lost_hints, 'lost_entries': lost_entries, 'splits': splits, 'isolated': isolated}
     return woven, info
 
 
